@@ -27,7 +27,7 @@ ASSUMPTIONS = ['the run-time half of the property (the emitted wrapper loads the
 
 
 def bounds(tier):
-    return {'functions': '<= 2 (quick) / 3 (thorough)', 'index': '< 6', 'vftable size': '< 8', 'pointer_size': [4, 8],
+    return {'functions': '<= 2 with free signatures; 3 and 4 with a fixed signature and free slots', 'index': '< 6', 'vftable size': '< 8', 'pointer_size': [4, 8],
             'outside': 'larger tables; inherited tables (C06); run-time dispatch'}
 
 
@@ -107,7 +107,7 @@ def slices(tier, rng):
         out.append(Slice('args-ps%d' % ps, 't_vftargs', 11, lambda a, ps=ps, tier=tier: vftargs_assume(a, ps, tier), opts={'must_reach': ['ok']}, ctx={'m': 1}))
     for ps in (4, 8):
         out.append(Slice('m1-attr-order-ps%d' % ps, 't_vft', 14, lambda a, ps=ps: assume_attr_order(a, ps), opts={'must_reach': ['ok']}, ctx={'m': 1}))
-    mmax = 2 if tier == 'quick' else 3
+    mmax = 4
     for ps in (4, 8):
         for m in range(1, mmax + 1):
             if tier == 'quick' and ps == 8 and m > 1: continue
